@@ -278,6 +278,7 @@ pub struct World {
     drops: RefCell<HashMap<usize, Rc<std::cell::Cell<usize>>>>,
     tracks: RefCell<HashMap<usize, ManuallyDrop<loom::alloc::Track<()>>>>,
     raws: RefCell<HashMap<usize, *mut u8>>,
+    pub futures: Vec<crate::extras::FutureState>,
 }
 
 impl World {
@@ -297,6 +298,8 @@ impl World {
             senders.push(tx);
             receivers.push(RefCell::new(Some(ManuallyDrop::new(rx))));
         }
+        // one AtomicWaker (an `rt::Mutex` object) per scripted future, after the declared objects
+        let futures = (0..c.n_futures).map(|_| crate::extras::FutureState::new()).collect();
         World {
             prog,
             atoms,
@@ -316,6 +319,23 @@ impl World {
             drops: Default::default(),
             tracks: Default::default(),
             raws: Default::default(),
+            futures,
+        }
+    }
+
+    pub fn atomic_store(&self, x: usize, v: i128) {
+        let a = unsafe { &*self.atoms[x].as_ptr() };
+        a.op(&Op::St(x, v, Ordering::Relaxed));
+    }
+    pub fn atomic_store_rel(&self, x: usize, v: i128) {
+        let a = unsafe { &*self.atoms[x].as_ptr() };
+        a.op(&Op::St(x, v, Ordering::Release));
+    }
+    pub fn atomic_load_acq(&self, x: usize) -> i128 {
+        let a = unsafe { &*self.atoms[x].as_ptr() };
+        match a.op(&Op::Ld(x, Ordering::Acquire)) {
+            Ret::Val(v) => v,
+            _ => unreachable!(),
         }
     }
 }
@@ -383,6 +403,7 @@ pub fn run_thread(w: Rc<World>, body: usize) {
     // the loom thread id, needed as a key for guards
     let (tid, _) = loom::verif::current();
     if body == 0 {
+        crate::extras::reset(&w);
         // handle used by `unpark 0`
         w.thread_handles.borrow_mut().insert(0, loom::thread::current());
     }
@@ -680,7 +701,12 @@ fn exec_op(w: &Rc<World>, tid: usize, op: &Op) -> Ret {
             unsafe { loom::alloc::dealloc(p, loom::alloc::Layout::new::<u64>()) };
             Ret::Unit
         }
-        Op::Tls(_) | Op::TlsTry(_) | Op::Lazy(_) => panic!("harness: tls/lazy not implemented"),
+        Op::Tls(_) | Op::TlsTry(_) | Op::Lazy(_) | Op::TlsNest(..) | Op::TlsStat(_) | Op::TlsObs(_) | Op::LazyStat(_) => {
+            crate::extras::tls_op(op)
+        }
+        Op::BlockOn(..) | Op::Wake(_) | Op::WakeRef(_) | Op::DropWaker(_) | Op::AwWake(_) => {
+            crate::extras::future_op(w, op)
+        }
         Op::Stop => {
             loom::stop_exploring();
             Ret::Unit
